@@ -4,7 +4,7 @@ buffer of tracked elements; whole buffer dumped after =, elements()=, fill, swap
 assignment, range assignment) vs the extracted model."""
 import re
 
-from . import core, progcheck
+from . import core, progcheck, rank0
 
 PID = "C05"
 _meta = {}          # case id -> (G, NA, NB, what)
@@ -77,6 +77,9 @@ FAMILY = progcheck.Family(PID, "assign", "assign-run", "h_assign", ["h_assign.cp
 
 def run(tier, seed, replay=None):
     res = core.Result(PID, tier, seed, level="proof")
+    if replay and rank0.is_rank0_replay(replay):
+        rank0.replay(res, PID, replay)
+        return res.finish()
     fam = FAMILY
     coq = fam.prepare(res)
     if coq is None:
@@ -116,9 +119,10 @@ def run(tier, seed, replay=None):
         "observation_lines_compared": obs_text.count("\n"),
         "corpus_cases": len(core.split_cases(prog_c)),
         "disagreeing_cases": n_failing,
-        "not_exercised": ["convertible element types (the theorem has the conversion as a parameter)", "rank 0",
+        "not_exercised": ["convertible element types (the theorem has the conversion as a parameter)",
                           "source and destination inside one root", "re-based roots (C19 covers flat iteration on them)"],
     })
     res.assumptions = ["no 64-bit overflow", "g++ 12 / libstdc++ as installed",
                        "tracked element: copy clears and move sets the moved-from flag of the source"]
+    rank0.run_family(res, tier, seed, PID)     # dimensionality 0: compile probes + h_rank0 (coverage under "rank0")
     return res.finish()
